@@ -773,22 +773,6 @@ theorem accepted_reencodes_exact (U : Str → Option Str) (hU : UIdem U) (j : Js
   obtain ⟨j', h1, h2, _⟩ := accepted_reencodes U hU j e h
   exact ⟨j', h1, by rw [hn] at h2; exact h2⟩
 
-/-- the same for a typed decoder, for the inputs whose kind the receive path would recognise as that
-kind (the typed decoders accept more — a request without a `uri`, a response without a `status` —
-and that rest is covered on the implementation only, by the mode `c02`) -/
-theorem accepted_reencodes_typed_partial (U : Str → Option Str) (hU : UIdem U) (k : Kind) (j : Json) (e : Envelope)
-    (r : Raw) (hr : Raw.ofJson U j = .ok r) (hk : r.kind = .ok k) (h : decodeTyped U k j = .ok e) :
-    ∃ j', e.encode = .ok j' ∧ decodeTyped U e.kind j' = .ok e.norm := by
-  have hany : decodeAny U j = .ok e := by
-    unfold decodeTyped at h
-    unfold decodeAny
-    rw [hr] at h ⊢
-    simp only [Outcome.bind] at h ⊢
-    rw [hk]
-    exact h
-  obtain ⟨j', h1, _, h3, _⟩ := accepted_reencodes U hU j e hany
-  exact ⟨j', h1, h3⟩
-
 /-! Non-vacuity and necessity. -/
 
 /-- the identity URL library is idempotent -/
